@@ -5,6 +5,7 @@ import (
 	"crypto/sha256"
 	"encoding/hex"
 	"fmt"
+	"math/big"
 	"testing"
 
 	"golang.org/x/crypto/ripemd160"
@@ -38,7 +39,7 @@ type c02Case struct {
 	Extra   int    `json:"extra"` // number of unrelated other inputs/outputs
 }
 
-var c02Variants = []string{"correct", "correct", "flip-sig-bit", "truncate-sig", "sig-other-message", "sig-other-key", "alter-key-or-script",
+var c02Variants = []string{"correct", "correct", "flip-sig-bit", "truncate-sig", "sig-plus-group-order", "sig-r-other-encoding", "sig-other-message", "sig-other-key", "alter-key-or-script",
 	"duplicate-sig", "reverse-sigs", "one-sig-less", "mutate-output-amount", "mutate-output-program", "mutate-timerange", "mutate-other-input", "extra-arg", "no-witness"}
 
 func c02Key(seed, i int) chainkd.XPrv {
@@ -162,6 +163,26 @@ func c02Exec(c c02Case, x *pbt.Ctx) error {
 		sigs[idx][c.Bit/8%len(sigs[idx])] ^= 1 << uint(c.Bit%8)
 	case "truncate-sig":
 		sigs[idx] = sigs[idx][:len(sigs[idx])-1-c.Bit%8]
+	case "sig-plus-group-order":
+		// (R, S) -> (R, S + k*L): the same point equation, another encoding of the scalar; a verifier
+		// that does not insist on S < L accepts it
+		l, _ := new(big.Int).SetString("7237005577332262213973186563042994240857116359379907606001950938285454250989", 10)
+		sc := make([]byte, 32)
+		for i := 0; i < 32; i++ {
+			sc[i] = sigs[idx][63-i]
+		}
+		v := new(big.Int).SetBytes(sc)
+		v.Add(v, new(big.Int).Mul(l, big.NewInt(int64(1+c.Bit%7))))
+		if v.BitLen() > 256 {
+			return nil
+		}
+		be := v.FillBytes(make([]byte, 32))
+		for i := 0; i < 32; i++ {
+			sigs[idx][32+i] = be[31-i]
+		}
+	case "sig-r-other-encoding":
+		// the sign bit of R's x coordinate flipped: another point, must not verify
+		sigs[idx][31] ^= 0x80
 	case "sig-other-message":
 		other := sha3.Sum256(append([]byte("other"), sigHash...))
 		sigs[idx] = prvs[c.Subset[idx]].Sign(other[:])
@@ -223,7 +244,10 @@ func c02Exec(c c02Case, x *pbt.Ctx) error {
 		ws := args
 		okScript := true
 		if c.Lock == "p2wsh" {
-			okScript = len(args) >= 1 && func() bool { h := sha3.Sum256(args[len(args)-1]); return hex.EncodeToString(h[:]) == hex.EncodeToString(scriptHash) }()
+			okScript = len(args) >= 1 && func() bool {
+				h := sha3.Sum256(args[len(args)-1])
+				return hex.EncodeToString(h[:]) == hex.EncodeToString(scriptHash)
+			}()
 			if len(args) >= 1 {
 				ws = args[:len(args)-1]
 			}
